@@ -1,7 +1,7 @@
 #!/bin/bash
 # usage: tools/try_seed.sh <patch.diff> [props...]   - apply a seeded change to /repo, run the checks, undo it
 set -u
-P="$1"; shift
+P="$(readlink -f "$1")"; shift
 PROPS="$*"
 if [ -z "$PROPS" ]; then PROPS=$(cd /verif/props && ls c[0-9][0-9].py | sed 's/.py//' | tr a-z A-Z); fi
 cd /repo || exit 3
